@@ -432,10 +432,8 @@ theorem pinv_teardown {N : Nat} {w : World} (h : PInv N w) (i : Nat) (s : Sess) 
   rw [teardown_eq]
   have hb := pinv_tdBase h i s
   split
+  · exact pinv_sessDelete hb _ _
   · exact hb
-  · split
-    · exact hb
-    · exact pinv_sessDelete hb _ _
 
 theorem pinv_shutdown {N : Nat} {w : World} (h : PInv N w) (i : Nat) (sid : String) :
     PInv N (w.shutdownSession i sid) := by
